@@ -326,6 +326,7 @@ type snap struct {
 	rh     string // contract content: Merkle root, sector roots, output values, signatures
 	rr     string // Manager.SectorRoots only, in order
 	bal    types.Currency
+	pool   int // transactions in the host's transaction pool
 }
 
 func (w *hostWorld) snapshot() snap {
@@ -357,7 +358,7 @@ func (w *hostWorld) snapshot() snap {
 	if err != nil {
 		w.t.Fatal("snapshot balance:", err)
 	}
-	return snap{rv: c.Revision.RevisionNumber, fs: c.Revision.Filesize, nr: len(roots), rh: hex.EncodeToString(h.Sum(nil)[:6]), rr: hex.EncodeToString(hr.Sum(nil)[:6]), bal: bal}
+	return snap{rv: c.Revision.RevisionNumber, fs: c.Revision.Filesize, nr: len(roots), rh: hex.EncodeToString(h.Sum(nil)[:6]), rr: hex.EncodeToString(hr.Sum(nil)[:6]), bal: bal, pool: len(w.node.Chain.PoolTransactions())}
 }
 
 func snapObs(a, b snap) string {
@@ -368,7 +369,7 @@ func snapObs(a, b snap) string {
 	} else {
 		refund = b.bal.Sub(a.bal).ExactString()
 	}
-	return fmt.Sprintf("rv0=%d rv1=%d fs0=%d fs1=%d nr0=%d nr1=%d rr0=%s rr1=%s rh0=%s rh1=%s bal0=%s charged=%s gained=%s", a.rv, b.rv, a.fs, b.fs, a.nr, b.nr, a.rr, b.rr, a.rh, b.rh, a.bal.ExactString(), charged, refund)
+	return fmt.Sprintf("rv0=%d rv1=%d fs0=%d fs1=%d nr0=%d nr1=%d rr0=%s rr1=%s rh0=%s rh1=%s pool0=%d pool1=%d bal0=%s charged=%s gained=%s", a.rv, b.rv, a.fs, b.fs, a.nr, b.nr, a.rr, b.rr, a.rh, b.rh, a.pool, b.pool, a.bal.ExactString(), charged, refund)
 }
 
 // ---------------------------------------------------------------- RHP3 programs
